@@ -152,6 +152,57 @@ CategoriesPartition(sch) ==
     /\ SeqSum([k \in 1..7 |-> Len(GetCategory(sch, <<"struct", "enum", "impl", "field", "signal_block", "service", "device">>[k]))]) = NodeCount(sch)
     /\ Len(GetCategory(sch, "type")) = Len(sch.structs) + Len(sch.enums)
 
+(* ---- fcp.type_visitor.TypeVisitor.visit: a fold over a type, as the code does it ----                                          *)
+(* struct: the fields of the node get_type finds, visited in ascending field id (sorted() is stable), each under its own name;   *)
+(* array / dynamic array / optional: the element type is visited under the EMPTY name (visit's default), the wrapper under the   *)
+(* name given; a struct reference without a node raises (Nothing.unwrap()), one that get_type resolves to an ENUM raises too     *)
+(* (an Enum has no fields).  The term is the call tree of the free visitor (every hook returns its own arguments).               *)
+RaiseT == [v |-> "raise"]
+RECURSIVE Visit(_, _, _)
+VisitAll(sch, fs) ==   (* the visited fields; ok = FALSE if one of them raises *)
+    LET terms == [i \in 1..Len(fs) |-> Visit(sch, fs[i].type, fs[i].name)] IN
+    IF \E i \in 1..Len(fs) : terms[i] = RaiseT THEN [ok |-> FALSE, terms |-> <<>>] ELSE [ok |-> TRUE, terms |-> terms]
+Visit(sch, t, name) ==
+    CASE t.k = "struct" ->
+            LET nd == TypeNode(sch, t) IN
+            IF nd.k # "struct" THEN RaiseT
+            ELSE LET fields == VisitAll(sch, SortedById(sch.structs[nd.n].fields)) IN
+                 IF ~fields.ok THEN RaiseT ELSE [v |-> "struct", name |-> name, t |-> t.name, fields |-> fields.terms]
+      [] t.k = "enum" -> [v |-> "enum", name |-> name, t |-> t.name]
+      [] t.k = "u"    -> [v |-> "unsigned", name |-> name, w |-> t.w]
+      [] t.k = "i"    -> [v |-> "signed", name |-> name, w |-> t.w]
+      [] t.k = "f32"  -> [v |-> "float", name |-> name]
+      [] t.k = "f64"  -> [v |-> "double", name |-> name]
+      [] t.k = "str"  -> [v |-> "string", name |-> name]
+      [] t.k \in {"arr", "dyn", "opt"} ->
+            LET inner == Visit(sch, t.t, "") IN
+            IF inner = RaiseT THEN RaiseT
+            ELSE CASE t.k = "arr" -> [v |-> "array", name |-> name, n |-> t.n, inner |-> inner]
+                   [] t.k = "dyn" -> [v |-> "dynamic_array", name |-> name, inner |-> inner]
+                   [] t.k = "opt" -> [v |-> "optional", name |-> name, inner |-> inner]
+
+(* the scalar leaves of a term in visiting order, an array repeated n times: <<width>> per leaf (enum: its wire width) *)
+RECURSIVE TermBits(_, _)
+TermBits(sch, tm) ==
+    CASE tm.v = "struct"   -> SeqSum([i \in 1..Len(tm.fields) |-> TermBits(sch, tm.fields[i])])
+      [] tm.v = "enum"     -> EnumWidth(GetEnum(sch, tm.t))
+      [] tm.v \in {"unsigned", "signed"} -> tm.w
+      [] tm.v = "float"    -> 32
+      [] tm.v = "double"   -> 64
+      [] tm.v = "array"    -> tm.n * TermBits(sch, tm.inner)
+(* the visitor and the size function of FcpSchema walk the same tree: for a fixed-size type whose references resolve by kind
+   the visited leaves add up to BitsOf *)
+RECURSIVE WellKinded(_, _)
+WellKinded(sch, t) ==
+    CASE t.k = "struct" -> /\ HasName(sch.structs, t.name)
+                           /\ LET fs == GetStruct(sch, t.name).fields IN \A i \in 1..Len(fs) : WellKinded(sch, fs[i].type)
+      [] t.k = "enum"   -> HasName(sch.enums, t.name) /\ ~HasName(sch.structs, t.name)
+      [] t.k \in {"arr", "dyn", "opt"} -> WellKinded(sch, t.t)
+      [] OTHER -> TRUE
+VisitAgreesWithBitsOf(sch, t) ==
+    (WellKinded(sch, t) /\ FixedSize(sch, t)) => (Visit(sch, t, "r") # RaiseT /\ TermBits(sch, Visit(sch, t, "r")) = BitsOf(sch, t))
+VisitRaisesOnlyOnBadReference(sch, t) == WellKinded(sch, t) => Visit(sch, t, "r") # RaiseT
+
 UniqueStructNames(sch) == \A i, j \in 1..Len(sch.structs) : sch.structs[i].name = sch.structs[j].name => i = j
 (* what a generator relies on: every struct that has a binding for p or a default one is represented; nothing else is returned;
    a struct with an own binding never contributes its default one; with unique struct names no binding is returned twice *)
